@@ -146,3 +146,345 @@ def check_no_bypass(chk, rule, prog):
     chk.ob(rule, "no library function calls libc malloc/realloc/free (or another allocating libc routine) directly", not bad, "src/",
            key="bypass:none", detail="" if not bad else str([(b[0], b[3]) for b in bad]))
     chk.floor(rule, "external references examined", n, 8)
+
+
+# ---------------------------------------------------------------------------
+# narrowing audit: a 64-bit quantity (every size, count and length of the library is a size_t / uint64_t) is converted to
+# a narrower type only (a) to take one byte of it for the output buffer, (b) below a range test that makes the conversion
+# lossless.  A declared element count tracked in a 32-bit field, a length passed through an `int` - the conversion is
+# silent in C and reduces the quantity modulo 2^32.
+
+def _int_bits(t):
+    if isinstance(t, str) and t.startswith("i") and t[1:].isdigit():
+        return int(t[1:])
+    return None
+
+
+def check_narrowing(chk, rule, prog, floor=8, eff=None):
+    from ir import Inst, Const, strip_casts
+    n = 0
+    cache_box = {}
+    for f in prog.lib_funcs():
+        for i in f.all_insts():
+            if i.op != "trunc":
+                continue
+            src = i.operands[0]
+            sb, db = _int_bits(getattr(src, "type", None)), _int_bits(i.type)
+            if sb is None or db is None or sb < 64:
+                continue
+            n += 1
+            why = None
+            base = strip_casts(src, ("zext", "sext"))
+            # (a) byte extraction: the only use is a store of the byte (into the output buffer)
+            us = list(f.users(i))
+            if db == 8 and us and all(u.op == "store" and u.operands[0] is i for u in us):
+                why = "one byte of the value stored to a buffer"
+            # (a') the value cannot exceed the target type by construction: a bit count, a masked / shifted-down / reduced value
+            lim = (1 << db) - 1
+            if why is None and _small_by_construction(base, lim, sb):
+                why = "value bounded by construction (bit count, mask, shift or remainder)"
+            # (b) dominated by a range test  v <= C / v < C  with C within the target type
+            if why is None:
+                lim = (1 << db) - 1
+                for p in f.blocks:
+                    t = p.insts[-1] if p.insts else None
+                    if t is None or t.op != "br" or len(p.succs) != 2 or p.succs[0] is p.succs[1]:
+                        continue
+                    c = t.operands[0]
+                    if not (isinstance(c, Inst) and c.op == "icmp"):
+                        continue
+                    l, r = c.operands
+                    pred = c.pred
+                    if isinstance(l, Const) and not isinstance(r, Const):
+                        l, r = r, l
+                        pred = {"ult": "ugt", "ugt": "ult", "ule": "uge", "uge": "ule"}.get(pred, pred)
+                    if not isinstance(r, Const) or not _same_value(strip_casts(l, ("zext", "sext")), base):
+                        continue
+                    good = None   # which edge (0 = true, 1 = false) implies v <= lim
+                    if (pred == "ule" and r.v <= lim) or (pred == "ult" and r.v <= lim + 1) or (pred == "eq" and r.v <= lim):
+                        good = 0
+                    elif (pred == "ugt" and r.v <= lim) or (pred == "uge" and r.v <= lim + 1):
+                        good = 1
+                    if good is not None and f.edge_dominates(p, p.succs[good], i.block):
+                        why = "below the range test at line %d" % c.line
+                        break
+            if why is None and eff is not None:
+                # (b') the range test is made somewhere the dominator tree does not show (a helper that classifies the value, a
+                # switch on its result): decided on the paths - wherever the converted value is used, the path's facts bound it
+                import ownership as _O
+                import paths as _P
+                cache_ = cache_box.setdefault("c", _O.PathCache(prog, eff))
+                uses, bounded = 0, 0
+                for pa in cache_.get(f.name, inline_static=True):
+                    for e in pa.events:
+                        if e.ins is None or e.depth != 0 or e.kind not in ("call", "store"):
+                            continue
+                        for k_, o_ in enumerate(e.ins.operands):
+                            if o_ is i and k_ < len(e.args):
+                                t_ = e.args[k_]
+                                uses += 1
+                                if isinstance(t_, tuple) and t_[0] == "cast" and t_[1] == "trunc":
+                                    x_ = t_[3]
+                                    hi_ = x_[1] if _P.is_const(x_) else pa.st.hi.get(x_)
+                                    if hi_ is not None and hi_ <= lim:
+                                        bounded += 1
+                                elif _P.is_const(t_):
+                                    bounded += 1
+                if uses and uses == bounded:
+                    why = "bounded by the path's facts at each of its %d use(s)" % uses
+            chk.ob(rule, "%s: a 64-bit value is narrowed to %d bits only as a byte for the output or below a range test" % (f.name, db),
+                   why is not None, i.loc(), fn=f.name, key="%s:trunc:%d" % (f.name, _ordinal_of(f, i)),
+                   detail="" if why else "%s is reduced modulo 2^%d here: a count or length that does not fit is silently replaced by a "
+                                         "smaller one (no range test dominates the conversion)" % (getattr(src, "name", "") or "value", db))
+    chk.floor(rule, "64-bit narrowing conversions", n, floor)
+
+
+def _small_by_construction(v, lim, bits, depth=0):
+    from ir import Inst, Const, strip_casts
+    if depth > 6:
+        return False
+    if isinstance(v, Const):
+        return v.v <= lim
+    if not isinstance(v, Inst):
+        return False
+    if v.op == "call" and (v.callee or "").startswith(("llvm.ctlz.", "llvm.cttz.", "llvm.ctpop.")):
+        return bits <= lim
+    if v.op == "zext":
+        sb = _int_bits(getattr(v.operands[0], "type", None))
+        return (sb is not None and (1 << sb) - 1 <= lim) or _small_by_construction(v.operands[0], lim, bits, depth + 1)
+    if v.op == "and":
+        return any(isinstance(o, Const) and o.v <= lim for o in v.operands) or any(_small_by_construction(o, lim, bits, depth + 1) for o in v.operands)
+    if v.op == "lshr" and isinstance(v.operands[1], Const):
+        return (1 << max(0, bits - v.operands[1].v)) - 1 <= lim
+    if v.op == "urem" and isinstance(v.operands[1], Const):
+        return v.operands[1].v - 1 <= lim
+    if v.op in ("select", "phi"):
+        ops = v.operands[1:] if v.op == "select" else v.operands
+        return all(_small_by_construction(o, lim, bits, depth + 1) for o in ops)
+    return False
+
+
+def _same_value(a, b):
+    from ir import Arg
+    if isinstance(a, Arg) and isinstance(b, Arg):
+        return a.i == b.i
+    return a is b
+
+
+def _ordinal_of(f, ins):
+    k = 0
+    for j in f.all_insts():
+        if j.op == ins.op:
+            if j is ins:
+                return k
+            k += 1
+    return -1
+
+
+# ---------------------------------------------------------------------------
+# declared effects: `__attribute__((pure))` / `((const))` on a prototype is a promise to every compiler that translates
+# CLIENT code - two calls without an intervening store may be merged into one, a call whose result is unused may be
+# dropped.  The promise must be true of the definition: no store outside the frame, no allocation, no release, no callback.
+
+def check_declared_effects(chk, rule, prog, eff, control="verif_ctl_pure_get"):
+    n = 0
+    promised = 0
+    for f in prog.funcs.values():
+        ro, rn = f.d_attr("readonly"), f.d_attr("readnone")
+        n += 1
+        if not (ro or rn):
+            continue
+        S = eff.summ.get(f.name)
+        if S is None:
+            continue
+        bad = []
+        w = sorted(str(r) for r in S["writes"] if r[0] != "local")
+        if w:
+            bad.append("writes %s" % ", ".join(w[:3]))
+        if S["allocates"]:
+            bad.append("allocates")
+        if S["frees"]:
+            bad.append("frees")
+        if S.get("callbacks"):
+            bad.append("invokes a callback")
+        if f.is_extra:
+            if f.name == control:
+                chk.ob(rule, "positive control %s is reported" % control, bool(bad), "%s:%d" % (f.file, f.line), fn=f.name, key="ctl:" + control)
+            continue
+        promised += 1
+        chk.ob(rule, "%s is declared %s and its definition honours that" % (f.name, "const" if rn else "pure"), not bad,
+               "%s:%d" % (f.file, f.line), fn=f.name, key="declfx:" + f.name,
+               detail="" if not bad else "declared %s (a client's compiler may merge or drop calls) but the definition %s"
+               % ("const" if rn else "pure", "; ".join(bad)))
+    chk.count("%s: functions declared pure/const" % rule, promised)
+    chk.floor(rule, "function definitions examined for a declared-effects attribute", n, 150)
+
+
+# ---------------------------------------------------------------------------
+# the counter that decides when a block goes back to the allocator is as wide as a pointer: with 64 bits no history of
+# feasible length wraps it; with 32 bits 2^32 legitimate increments bring a shared item back to 1 and the next
+# decrement frees it under 2^32 holders
+
+def check_refcount_width(chk, rule, prog, cache, bits=64):
+    import paths as P
+    off_rc = prog.field_offset("cbor_item_t", "refcount")
+    n = 0
+    for f in prog.lib_funcs():
+        for k, pa in enumerate(cache.get(f.name)):
+            for e in pa.events:
+                if e.kind == "store" and e.depth == 0:
+                    b, o = P.ptr_key(e.args[0])
+                    if o != off_rc or not isinstance(b, tuple) or b[0] not in ("arg", "ld", "call"):
+                        continue
+                    v = e.args[1]
+                    step = isinstance(v, tuple) and v[0] == "op" and v[1] in ("add", "sub")
+                    if not step:
+                        continue
+                    ty = e.extra if isinstance(e.extra, str) else None
+                    n += 1
+                    ok = ty == "i%d" % bits
+                    chk.ob(rule, "%s: the reference count is stepped at %d bits" % (f.name, bits), ok, e.ins.loc(), fn=f.name,
+                           key="rcwidth:%s:%d" % (f.name, e.ins.id),
+                           detail="" if ok else "the counter is a %s: 2^%s legitimate increments wrap it and the next decrement releases an item "
+                                                "that still has holders" % (ty, (ty or "i?")[1:]))
+    chk.floor(rule, "unit steps of a reference count", n, 3)
+
+
+# ---------------------------------------------------------------------------
+# stated beliefs (Engler et al.): a function that compares one of its pointer parameters with NULL believes the parameter
+# may be NULL; every access through that parameter must then lie where the path has established it is not.
+
+def check_null_belief(chk, rule, prog, cache, floor=1):
+    import paths as P
+    from ir import Inst, Arg, Const, Null, strip_casts
+    n = 0
+    for f in prog.lib_funcs():
+        optional = set()
+        for i in f.all_insts():
+            if i.op == "icmp" and i.pred in ("eq", "ne"):
+                a, b = (strip_casts(o) for o in i.operands)
+                for x, y in ((a, b), (b, a)):
+                    if isinstance(x, Arg) and (isinstance(y, Null) or (isinstance(y, Const) and y.v == 0)) and x.type.endswith("*"):
+                        optional.add(x.i)
+        if not optional:
+            continue
+        worst = {}
+        for k, pa in enumerate(cache.get(f.name)):
+            for e in pa.events:
+                if e.kind not in ("load", "store") or e.depth != 0:
+                    continue
+                b_, _o = P.ptr_key(e.args[0])
+                if not (isinstance(b_, tuple) and b_[0] == "arg" and b_[1] in optional):
+                    continue
+                ok = pa.st.known_nonnull(b_, upto=e.nfacts)
+                key = (b_[1], e.ins.id)
+                if key not in worst or (worst[key][0] and not ok):
+                    worst[key] = (ok, e, pa)
+        for (pi, _iid), (ok, e, pa) in worst.items():
+            n += 1
+            pname = f.params[pi]["name"]
+            chk.ob(rule, "%s: `%s` is compared with NULL elsewhere, so this access lies where it is known non-NULL" % (f.name, pname), ok,
+                   e.ins.loc(), fn=f.name, key="%s:nullbelief:%s:%d" % (f.name, pname, _ordinal_of(f, e.ins)),
+                   detail="" if ok else "%s through `%s` on a path that has not tested it, although the function treats NULL as a legal value "
+                                        "for it elsewhere" % (e.kind, pname), path=pa.block_lines() if not ok else None)
+    chk.floor(rule, "accesses through parameters the function itself tests for NULL", n, floor)
+
+
+def pure_getters(prog, eff):
+    """loop-free, non-recursive library routines without side effects (accessors, predicates): safe to inline anywhere so that
+    a value read through `cbor_map_size(item)` and one read from the field are the same term"""
+    out = set()
+    for n, g in prog.funcs.items():
+        if g.is_extra or n not in eff.summ:
+            continue
+        S = eff.summ[n]
+        if S["writes"] or S["allocates"] or S["frees"] or S["callbacks"] or g.back_edges() or n in eff.transitive_callees(n):
+            continue
+        if len(list(g.all_insts())) > 60:
+            continue
+        out.add(n)
+    return out
+
+
+def check_slot_reads_below_count(chk, rule, prog, eff, floor=8):
+    """Slots [count, capacity) of a container's storage are whatever the allocator returned.  Every indexed READ of a slot
+    table that sits in a loop is bounded by the container's element COUNT; a reader bounded by the CAPACITY field walks
+    into uninitialised slots (and dereferences what it finds there)."""
+    import paths as P
+    import ownership as O
+    off_meta = prog.field_offset("cbor_item_t", "metadata")
+    data_off = prog.field_offset("cbor_item_t", "data")
+    cnt_off = off_meta + prog.field_offset("_cbor_array_metadata", "end_ptr")
+    cap_off = off_meta + prog.field_offset("_cbor_array_metadata", "allocated")
+    ccnt = prog.field_offset("cbor_indefinite_string_data", "chunk_count")
+    ccap = prog.field_offset("cbor_indefinite_string_data", "chunk_capacity")
+    chunks_off = prog.field_offset("cbor_indefinite_string_data", "chunks")
+    getters = pure_getters(prog, eff)
+    in_context = set()
+    for g in prog.lib_funcs():
+        in_context |= O.static_callees(prog, eff, g.name)
+
+    def canon(t):
+        while isinstance(t, tuple) and t[0] == "cast":
+            t = t[3]
+        if isinstance(t, tuple) and t[0] == "ld":
+            return ("ld", canon(t[1]), t[2])
+        return t
+
+    n = 0
+    for f in prog.lib_funcs():
+        if f.name in in_context or f.name in getters or not f.back_edges():
+            continue
+        inl = (O.static_callees(prog, eff, f.name) | getters) - {f.name}
+        try:
+            paths_ = P.Executor(prog, eff, inline=inl, loop_bound=1, max_paths=4000).run(f.name)
+        except P.PathCapExceeded:
+            continue
+        worst = {}
+        for k, pa in enumerate(paths_):
+            for e in pa.events:
+                if e.kind != "load":
+                    continue
+                b, _o = P.ptr_key(e.args[0])
+                if not (isinstance(b, tuple) and b[0] == "idx" and b[3]):
+                    continue
+                table = canon(b[1])
+                if not (isinstance(table, tuple) and table[0] == "ld"):
+                    continue
+                if not (isinstance(b[2], str) and (b[2].endswith("*") or b[2].startswith("%struct."))):
+                    continue        # a byte payload, not a table of item slots
+                # which container does the table belong to?
+                if table[2] == data_off:
+                    X, good, bad = table[1], ("ld", table[1], cnt_off), ("ld", table[1], cap_off)
+                elif table[2] == chunks_off:
+                    X, good, bad = table[1], ("ld", table[1], ccnt), ("ld", table[1], ccap)
+                else:
+                    continue
+                i = b[3][-1]
+                bounds = []
+                for t, truth, _ in pa.facts[:e.nfacts]:
+                    if not (isinstance(t, tuple) and t[0] == "icmp" and len(t) == 4):
+                        continue
+                    l, r = t[2], t[3]
+                    if l == i and ((t[1] == "ult" and truth) or (t[1] == "uge" and not truth)):
+                        bounds.append(canon(r))
+                    elif r == i and ((t[1] == "ugt" and truth) or (t[1] == "ule" and not truth)):
+                        bounds.append(canon(l))
+                if not bounds:
+                    continue
+                key = e.ins.id
+                verdict = "count" if good in bounds else ("capacity" if bad in bounds else "other")
+                cur = worst.get(key)
+                if cur is None or (verdict == "capacity" and cur[0] != "capacity"):
+                    worst[key] = (verdict, e, pa)
+        for key, (verdict, e, pa) in worst.items():
+            if verdict == "other":
+                continue
+            n += 1
+            ok = verdict == "count"
+            chk.ob(rule, "%s: the slot read at line %d is bounded by the element count" % (f.name, e.ins.line), ok, e.ins.loc(), fn=f.name,
+                   key="%s:slotread:%d" % (f.name, _ordinal_of(f, e.ins) if e.fn is f else e.ins.id),
+                   detail="" if ok else "the loop runs up to the CAPACITY of the container: slots between the element count and the capacity were "
+                                        "never written (an indefinite container that is not exactly full, a definite one still being filled)",
+                   path=pa.block_lines() if not ok else None)
+    chk.floor(rule, "slot reads in loops bounded by a count or capacity field", n, floor)
